@@ -1,5 +1,6 @@
 import AtreeProofs.Codec.RoundTrip
 import AtreeProofs.Codec.HeadG
+import AtreeProofs.Codec.RoundTripD
 /-
   C07 — Slab encoding is canonical, self-describing and round-trips exactly.
   PROPERTY THEOREMS about the byte-level model (`AtreeModel/Codec`).
@@ -172,5 +173,64 @@ theorem decode_rejects_trailing_meta (ty : TyInfo) (m : MetaSlab Unit) (ok : Met
 theorem storable_accepts_trailing (id : SlabID) (e : Elem) (hv : validElem e) (extra : Bytes) (n : Nat) :
     decodeSlab id (encodeStorableSlab e ++ extra) n = .ok (.storable id e) n :=
   decodeSlab_encodeStorableSlab id e hv extra n
+
+/-! ## Second part of the model: map slabs
+
+  `MapMetaOK` / `MapDataOK` collect what encoder and decoder rely on: slab IDs, digests, counts and
+  seeds fit their fixed-width fields; sizes fit `uint32`; children of an index slab share its
+  address; an `hkeyElements` has one digest per element and fewer than 8192 of them, a
+  `singleElements` is not empty; digest levels are below 24 (Go refuses levels above
+  `maxDigestLevel`); the nesting of collision groups and wrappers stays within the CBOR library's
+  limit of 32 levels (`MEls.vneed`); plain values are values of the harness.
+  `MapDataOK.noInl`: keys and values are plain values, slab references and wrapped ones — the round
+  trip of slabs with inlined arrays / maps and of compact maps is covered by the differential
+   comparison only so far. -/
+
+/-- Decoding the encoding of a map index slab gives the slab back. -/
+theorem decode_encode_mindex (m : MapMeta) (ok : MapMetaOK m) (n : Nat) :
+    decodeSlab m.id (encodeMapMeta m) n = .ok (.mindex m) (n + m.childHdrs.length) := by
+  have := decodeSlab_encodeMapMeta m ok [] n
+  simpa using this
+
+/-- A map index slab register with extra bytes after the child headers is rejected (length check). -/
+theorem decode_rejects_trailing_mindex (m : MapMeta) (ok : MapMetaOK m) (extra : Bytes) (hex : extra ≠ [])
+    (n : Nat) : decodeSlab m.id (encodeMapMeta m ++ extra) n = .error .decoding n := by
+  rw [decodeSlab_encodeMapMeta m ok extra n, if_pos hex]
+
+/-- Decoding the encoding of a map data slab — root, non-root with or without sibling link, or the
+    slab of an external collision group; `hkeyElements` with single elements, inline collision
+    groups (nested), references to external collision groups; last-level `singleElements`; keys and
+    values plain, slab references or wrapped — gives the slab back. -/
+theorem decode_encode_mdata (s : MapData) (ok : MapDataOK s) (n : Nat) :
+    decodeSlab s.id (encodeMapData s) n = .ok (.mdata s) (n + s.els.allocs) := by
+  have := decodeSlab_encodeMapData s ok [] n
+  simpa using this
+
+/-- Re-encoding whatever the decoder returns for a register of a map slab yields the identical bytes. -/
+theorem reencode_fixpoint_mdata (s : MapData) (ok : MapDataOK s) (n : Nat) (s' : Slab) (k : Nat)
+    (h : decodeSlab s.id (encodeMapData s) n = .ok s' k) : encodeSlab s' = encodeMapData s := by
+  rw [decode_encode_mdata s ok n] at h
+  cases h
+  rfl
+
+theorem reencode_fixpoint_mindex (m : MapMeta) (ok : MapMetaOK m) (n : Nat) (s' : Slab) (k : Nat)
+    (h : decodeSlab m.id (encodeMapMeta m) n = .ok s' k) : encodeSlab s' = encodeMapMeta m := by
+  rw [decode_encode_mindex m ok n] at h
+  cases h
+  rfl
+
+/-- A slab decoded from its register reports the same size as the slab that produced the register —
+    including the non-root map data slab whose sibling link was omitted from the register (C06). -/
+theorem decoded_size_eq_mdata (s : MapData) (ok : MapDataOK s) (n : Nat) :
+    ∃ s' k, decodeSlab s.id (encodeMapData s) n = .ok s' k ∧ s'.byteSize = s.size :=
+  ⟨_, _, decode_encode_mdata s ok n, rfl⟩
+
+/-- OBSERVATION (not a violation of the property, which is about registers the library produced):
+    a map data slab register followed by arbitrary extra bytes is ACCEPTED and decodes to the same
+    slab — unlike the array data slab decoder ("Check if data reached EOF"), `newMapDataSlabFromDataV1`
+    has no end-of-data check, so this kind has more than one accepted byte string per slab. -/
+theorem mdata_accepts_trailing (s : MapData) (ok : MapDataOK s) (extra : Bytes) (n : Nat) :
+    decodeSlab s.id (encodeMapData s ++ extra) n = .ok (.mdata s) (n + s.els.allocs) :=
+  decodeSlab_encodeMapData s ok extra n
 
 end Atree.C07
